@@ -487,6 +487,27 @@ func hunt(o Opts) {
 			}
 		}
 	}
+	// the -Inf short cuts of LogAdd / LogSub are Set(operand): the derivatives of the finite operand must survive
+	ninf := math.Inf(-1)
+	for _, site := range []string{"LogSub", "LogSub(concrete)", "LogAdd", "LogAdd(concrete)", "LogSub(alias)", "LogAdd(alias)"} {
+		for _, xs := range [][]float64{{1.25, ninf}, {-3.5, ninf}, {ninf, 0.75}} {
+			if strings.HasPrefix(site, "LogSub") && math.IsInf(xs[0], -1) {
+				continue
+			}
+			for _, kind := range []int{K64, K32} {
+				for _, order := range []int{1, 2} {
+					count++
+					if f := checkPoint(site, kind, order, xs, 0, 0); f != "" {
+						key := site + "(-Inf)"
+						if !seen[key] {
+							seen[key] = true
+							hits = append(hits, HuntHit{Site: site, Kind: kind, Order: order, Xs: xs, Failure: f, Class: "derivative"})
+						}
+					}
+				}
+			}
+		}
+	}
 	// restarted registers: fresh vs reused receiver (streams.go)
 	sh, sc := staleHunt()
 	hits = append(hits, sh...)
@@ -502,7 +523,10 @@ func hunt(o Opts) {
 		}
 	}
 	out := map[string]interface{}{"found": len(hits) > 0, "hits": hits, "points": count}
-	b, _ := json.MarshalIndent(out, "", " ")
+	b, err := json.MarshalIndent(out, "", " ")
+	if err != nil {
+		Die("hunt.json: %v", err)
+	}
 	os.WriteFile(filepath.Join(o.Out, "hunt.json"), b, 0644)
 }
 
